@@ -477,6 +477,19 @@ func runR_C13(c *Ctx) {
 				ok = reportIssues(c, rs, "R8", "", issues) && ok
 			}
 			ok = reportIssues(c, rs, "R5b", "", orderedKindIssues(rs, lit.Body)) && ok
+			ok = reportIssues(c, rs, "R8", "", compareMagnitudeIssues(rs, lit.Body)) && ok
+			// the order must be the derived Compare's (or the natural < of an ordered basic type), not a library order
+			ast.Inspect(lit.Body, func(n ast.Node) bool {
+				call, isCall := n.(*ast.CallExpr)
+				if !isCall || len(call.Args) != 2 || s.side(call.Args[0]) == "" || s.side(call.Args[1]) == "" {
+					return true
+				}
+				if funcHoleWho(rs, call.Fun) != "compare" {
+					ok = false
+					c.Rep.fail(residFinding(c.Repo, rs, "R8", "less-foreign-order", "sort: elements are ordered with "+rs.src(call.Fun)+", not with the derived compare function: the result is not non-decreasing under derived Compare (which orders nil first, then by length)", call))
+				}
+				return true
+			})
 			// every index expression in the less function indexes the sorted list
 			ast.Inspect(lit.Body, func(n ast.Node) bool {
 				if ix, isIx := n.(*ast.IndexExpr); isIx && canon(ix.X) != list {
@@ -521,6 +534,7 @@ func runR_C13(c *Ctx) {
 			}
 			ok = reportIssues(c, rs, "R8", "", issues) && ok
 			ok = reportIssues(c, rs, "R5b", "", orderedKindIssues(rs, rs.Funcs[0].Body)) && ok
+			ok = reportIssues(c, rs, "R8", "", compareMagnitudeIssues(rs, rs.Funcs[0].Body)) && ok
 			if s := newSided(rs, rs.Funcs[0]); s != nil {
 				ok = reportIssues(c, rs, "R10", "", writesThroughRoots(s, nil)) && ok
 			}
@@ -551,4 +565,45 @@ func runR_C13(c *Ctx) {
 	}
 	g9Ordered(c, "min.isOrdered", "max.isOrdered")
 	c.Rep.floor("R8", 8)
+}
+
+// compareMagnitudeIssues: the result of a compare helper / Compare method may only be tested against 0: derived Compare
+// passes a user-defined Compare method's result through unnormalised, so `== -1` or `> 1` relies on a magnitude that
+// is not part of the contract.
+func compareMagnitudeIssues(rs *Resid, body ast.Node) []sideIssue {
+	var out []sideIssue
+	defs := localDefs(body)
+	isCmp := func(e ast.Expr) bool {
+		c, ok := unparen(expand(e, defs, 0)).(*ast.CallExpr)
+		if !ok {
+			return false
+		}
+		if funcHoleWho(rs, c.Fun) == "compare" {
+			return true
+		}
+		if sel, ok := c.Fun.(*ast.SelectorExpr); ok && sel.Sel.Name == "Compare" {
+			return true
+		}
+		return false
+	}
+	ast.Inspect(body, func(n ast.Node) bool {
+		be, ok := n.(*ast.BinaryExpr)
+		if !ok || !cmpOps[be.Op] {
+			return true
+		}
+		var lit ast.Expr
+		switch {
+		case isCmp(be.X):
+			lit = be.Y
+		case isCmp(be.Y):
+			lit = be.X
+		default:
+			return true
+		}
+		if canon(lit) != "0" {
+			out = append(out, sideIssue{be, fmt.Sprintf("tests a compare result against %s: only the sign of a compare result is defined (a user Compare method may return any negative or positive number)", rs.src(lit)), "compare-magnitude", ""})
+		}
+		return true
+	})
+	return out
 }
